@@ -27,6 +27,19 @@
       no disable_recursion_limit, no unbounded_depth feature).
 Not decided: stack consumption of 128 nested evaluator frames; panics inside
 dependency functions classified total by reading.
+
+The justifications are stated on what a value *is*, not on how the code around it is spelled (rules/panic.py):
+  index        length interval of the indexed view (operand list by arity; item of chunks_exact(n)/windows(n)/chunks(n);
+               remainder) refined by the length tests that dominate the site
+  counter      a 64-bit storage (local, fold accumulator, struct field) only ever set to a small constant or stepped by one
+  a - b        intervals from the comparisons that hold on every path to the site (core.implied_comparisons), through |x|
+  radix        value sets through constructors, phis, captures, call sites and the return values of private functions
+  str slicing  every bound is an offset of the sliced string itself (0, len, a search position, a constant behind ASCII)
+  loop         the type of the value whose next() drives it is a finite iterator (adaptors, &mut I, type parameters
+               resolved at every call site of the private function)
+  recursion    size-change graph over tree-carrying parameters / variant-transition graph with kinds read from
+               constructors and kind predicates decided per combination / provenance (C04) for the evaluator cycle,
+               re-read on the helper-inlined view of the operators concerned when the path-insensitive reading is dirty
 """
 import json, os, re, subprocess
 from collections import defaultdict
